@@ -8,6 +8,9 @@
   C18.W  (who-may-call) the host callable of a Procedure (`VmFunction::call`) is invoked only from call_native - every other
          way into a native (CallNative, calling a native function value, run_function given a native) goes through it,
          so every failure carries the function's name.
+  C18.C  conversions fail loudly: in the crate's `TryFrom<Value>` impls (the types a host function can declare as parameters),
+         the result of a nested conversion is propagated (`?`, map_err) - never turned into a default with .ok() /
+         unwrap_or*, which would run the host function with nil / a default instead of rejecting the argument.
   C18.N  reserved names: every public way to register a native rejects names starting with `__`.
   C18.B  re-entry is frame-balanced: run_function pushes two frames, pops one itself (the callee's Return pops the
          other), and the trap frame returns to the final Exit instruction.
@@ -220,6 +223,37 @@ def rule_w(F):
     return res
 
 
+def rule_c(F):
+    res = []
+    n = 0
+    for f in F.fns:
+        r = f.raw
+        if not f.hir or f.is_closure or f.name != "try_from" or not short(r.get("impl_trait", "")).endswith("convert::TryFrom"):
+            continue
+        if ((r.get("sig") or {}).get("inputs") or [""])[0] != "value::Value":
+            continue
+        ty = short(r.get("impl_self", "?"))
+        n += 1
+        key = "C18/C/%s/nested-conversion-propagated" % __import__("re").sub(r"[a-z_]+::", "", ty).replace(" ", "")
+        swallowed = []
+        for x in hir_walk(f.hir["body"]):
+            if x.get("k") == "mcall" and x["name"] in ("ok", "unwrap_or", "unwrap_or_default", "unwrap_or_else"):
+                rcv = hu.strip_all(x["recv"])
+                if rcv is not None and rcv.get("k") in ("mcall", "call") and any(
+                        n_.endswith("TryInto::try_into") or n_.endswith("TryFrom::try_from") for n_ in hir_callee(rcv)):
+                    swallowed.append(x)
+        if swallowed:
+            res.append(bad("C18.C", key, f.loc(swallowed[0]["ln"]),
+                           "TryFrom<Value> for %s discards the error of a nested conversion with `.%s()`: a script argument of the wrong "
+                           "kind is not rejected with an invalid-argument error naming the parameter, the host function runs with "
+                           "nil/a default instead" % (ty, swallowed[0]["name"])))
+        else:
+            res.append(ok("C18.C", key, f.loc(), "no nested conversion result is discarded"))
+    if n < 5:
+        raise AnchorMissing("TryFrom<Value> impls (found %d)" % n)
+    return res
+
+
 def rule_n(F):
     res = []
     # functions that insert into Vm.callables
@@ -330,6 +364,7 @@ def rule_b(F):
 RULES = [
     Rule("C18.O", rule_o, 14, "positional wiring of the native wrappers"),
     Rule("C18.W", rule_w, 3, "host errors are wrapped with the procedure name; result pushed"),
+    Rule("C18.C", rule_c, 5, "nested conversions of host-function parameters are propagated"),
     Rule("C18.N", rule_n, 1, "reserved names cannot be registered"),
     Rule("C18.B", rule_b, 3, "re-entry is frame balanced"),
 ]
